@@ -9,6 +9,7 @@ import json
 import os
 import re
 
+import c01_bridge
 import vp
 
 TRANSLATOR = os.path.join(vp.VERIF, "translator")
@@ -63,6 +64,8 @@ def main():
     ]
     run_translator(R)
     R.proofs()
+    if not os.environ.get("VERIF_REPLAY"):
+        c01_bridge.run(R)   # composition: component hypotheses discharged from the C07/C09/C06/C02 models
     ok, failing, log = vp.coq_build(["Flow/Pipeline.v"])
     if not ok:
         R.broke("proof:Flow/Pipeline.v does not build", log[-2000:])
